@@ -301,3 +301,11 @@ Proof.
   intros H. unfold srun. f_equal. induction H as [|a b l l' Hab _ IH]; [reflexivity|].
   cbn [map]. rewrite Hab, IH. reflexivity.
 Qed.
+
+(** runs are invariant under inserting persist / restore steps *)
+Lemma perun_restore_invariant h : perun h = srun (drop_restores h).
+Proof.
+  unfold perun, srun, erun. generalize (fun _ : N => is0).
+  induction h as [|p h IH]; intros s; [reflexivity|].
+  destruct p as [e|i]; cbn [fold_left pestep drop_restores flat_map app map]; apply IH.
+Qed.
